@@ -620,6 +620,10 @@ func (c *tupCodec) Transform(k tup) ([]byte, []byte) {
 		}
 		if c.own {
 			out = append(out, ownEnc(ft, c.bits32, k.F[i])...)
+		} else if i == 0 {
+			// build the key by appending onto what the library's encoder returned for
+			// the first field, as a user codec may well do
+			out = encField(ft, k.F[i])
 		} else {
 			out = append(out, encField(ft, k.F[i])...)
 		}
